@@ -125,4 +125,113 @@ theorem inv_emit {s : Enc} {tr : List Pkt} {idx : Nat} {blk : Block} {sh : Shard
       rw [proj_append, proj_single_ne p k (by rw [hp1]; omega), List.append_nil]
       exact hT.future k hk'
 
+/-- what a packet returned by the loop is, relative to the state before (`s`) and after (`s'`) -/
+structure Emit (P : Params) (force : Bool) (s : Enc) (p : Pkt) (s' : Enc) : Prop where
+  blk : ∃ b, b ∈ s'.blocks ∧ b.sbn = p.sbn ∧ p.sbl = b.nbSource ∧ 0 < b.readIndex
+  isSource : p.isSource = decide (p.esi < p.sbl)
+  srcSent : s'.srcSent = s.srcSent + (if p.isSource then p.payload.length else 0)
+  nbPkt : s'.nbPkt = s.nbPkt + 1
+  closable : s'.closable = s.closable
+  stopped : s'.stopped = s.stopped
+  flag : p.closeObject = true → force = true ∨
+    (s.closable = true ∧ P.len ≤ s'.srcSent ∧ ∀ b, b ∈ s'.blocks → b.isEmpty = true)
+  flag_conv : (P.len ≤ s'.srcSent ∧ ∀ b, b ∈ s'.blocks → b.isEmpty = true) → s.closable = true → p.closeObject = true
+
+/-- the result of the loop, when it is a packet or `None` -/
+def LoopPost (P : Params) (c : Bytes) (aL aS nL n : Nat) (force : Bool) (tr : List Pkt) (s : Enc) :
+    Out × Enc → Prop
+  | (.pkt p, s') => Inv P c aL aS nL n s' ∧ TInv P c aL aS nL (tr ++ [p]) s' ∧ Emit P force s p s'
+  | (.none, s') => Inv P c aL aS nL n s' ∧ TInv P c aL aS nL tr s' ∧ s'.blocks = [] ∧
+      (1 ≤ P.window → s'.readEnd = true) ∧ s'.closable = s.closable ∧ s'.stopped = s.stopped ∧
+      s'.srcSent = s.srcSent ∧ s'.nbPkt = s.nbPkt
+  | _ => True
+
+theorem readLoop_spec (hS : Setup P c aL aS nL n) (hA : Accepts P c aL aS nL n) (force : Bool) (tr : List Pkt) :
+    ∀ (fuel : Nat) (s : Enc), Inv P c aL aS nL n s → TInv P c aL aS nL tr s →
+      LoopPost P c aL aS nL n force tr s (readLoop P force fuel s) := by
+  intro fuel
+  induction fuel with
+  | zero => intro s _ _; simp [readLoop, LoopPost]
+  | succ fuel ih =>
+    intro s hI hT
+    obtain ⟨hI1, hT1, hfull, hidx, hsrc, hnb, hcl, hst, _⟩ := inv_readWindowAux hS hA tr P.window s hI hT
+    unfold readLoop
+    simp only
+    generalize hs1 : readWindow P s = s1
+    have hs1' : readWindowAux P P.window s = s1 := hs1
+    rw [hs1'] at hI1 hT1 hfull hidx hsrc hnb hcl hst
+    by_cases hemp : s1.blocks.isEmpty = true
+    · simp only [hemp, if_true]
+      have hnil : s1.blocks = [] := List.isEmpty_iff.mp hemp
+      by_cases hn0 : s1.nbPkt = 0
+      · simp only [hn0, if_true]
+        have hlen : P.len ≠ 0 := by have := hS.l_pos; omega
+        simp [hlen, LoopPost]
+      · simp only [hn0, if_false]
+        refine ⟨hI1, hT1, hnil, ?_, hcl, hst, hsrc, hnb⟩
+        intro hw
+        rcases hfull (by omega) with h | h
+        · exact h
+        · rw [hnil] at h; simp at h; omega
+    · simp only [hemp, Bool.false_eq_true, if_false]
+      have hne : s1.blocks ≠ [] := fun h => hemp (List.isEmpty_iff.mpr h)
+      have hlen : 0 < s1.blocks.length := List.length_pos_iff.mpr hne
+      generalize hidx' : (if s1.idx ≥ s1.blocks.length then 0 else s1.idx) = idx
+      have hidxlt : idx < s1.blocks.length := by rw [← hidx']; split <;> omega
+      have hget : s1.blocks[idx]? = some s1.blocks[idx] := List.getElem?_eq_getElem hidxlt
+      generalize s1.blocks[idx] = blk at hget
+      rw [hget]
+      simp only
+      unfold Block.read
+      cases hsh : blk.shards[blk.readIndex]? with
+      | none =>
+        simp only
+        have hdr : blk.readIndex = blk.shards.length := by
+          have h1 := (hI1.blocks_ok blk (List.mem_iff_getElem?.mpr ⟨idx, hget⟩)).2.2
+          have h2 := List.getElem?_eq_none_iff.mp hsh
+          omega
+        obtain ⟨hI2, hT2⟩ := inv_erase hI1 hT1 hget hdr
+        have := ih _ hI2 hT2
+        revert this
+        generalize readLoop P force fuel _ = res
+        intro this
+        match res, this with
+        | (.pkt p, s'), ⟨a, b, e⟩ =>
+          exact ⟨a, b, ⟨e.blk, e.isSource, by rw [e.srcSent, hsrc], by rw [e.nbPkt, hnb], by rw [e.closable, hcl],
+            by rw [e.stopped, hst], by rw [← hcl]; exact e.flag, by rw [← hcl]; exact e.flag_conv⟩⟩
+        | (.none, s'), ⟨a, b, c1, c2, c3, c4, c5, c6⟩ =>
+          exact ⟨a, b, c1, c2, by rw [c3, hcl], by rw [c4, hst], by rw [c5, hsrc], by rw [c6, hnb]⟩
+        | (.panic, _), _ => trivial
+        | (.hang, _), _ => trivial
+      | some sh =>
+        simp only
+        obtain ⟨hI2, hT2⟩ := inv_emit hI1 hT1 hget hsh
+          { sbn := blk.sbn, esi := sh.esi, payload := sh.data,
+            closeObject := force || (s1.closable &&
+              isLastPacket P (if decide (sh.esi < blk.nbSource) = true then s1.srcSent + sh.data.length else s1.srcSent)
+                ({ blk with readIndex := blk.readIndex + 1 } : Block).isEmpty
+                (s1.blocks.set idx { blk with readIndex := blk.readIndex + 1 })),
+            sbl := blk.nbSource, isSource := decide (sh.esi < blk.nbSource) }
+          rfl rfl rfl
+          (if decide (sh.esi < blk.nbSource) = true then s1.srcSent + sh.data.length else s1.srcSent) (s1.nbPkt + 1)
+        refine ⟨hI2, hT2, ?_⟩
+        have hnl : P.legacy = false := hS.notLegacy
+        refine ⟨⟨_, List.mem_iff_getElem?.mpr ⟨idx, List.getElem?_set_self hidxlt⟩, rfl, rfl, Nat.succ_pos _⟩, rfl, ?_,
+          by show s1.nbPkt + 1 = s.nbPkt + 1; rw [hnb], hcl, hst, ?_, ?_⟩
+        · show (if decide (sh.esi < blk.nbSource) = true then s1.srcSent + sh.data.length else s1.srcSent) = _
+          rw [hsrc]; split <;> simp_all
+        · intro hflag
+          simp only [Bool.or_eq_true, Bool.and_eq_true, isLastPacket, hnl, Bool.false_or, decide_eq_true_eq] at hflag
+          rcases hflag with h | ⟨h1, ⟨h2, _⟩, h4⟩
+          · exact Or.inl h
+          · right
+            rw [← hcl]
+            exact ⟨h1, by simpa using h2, List.all_eq_true.mp h4⟩
+        · intro ⟨h1, h2⟩ h3
+          simp only [Bool.or_eq_true, Bool.and_eq_true, isLastPacket, hnl, Bool.false_or, decide_eq_true_eq]
+          right
+          rw [← hcl] at h3
+          refine ⟨h3, ⟨by simpa using h1, ?_⟩, List.all_eq_true.mpr h2⟩
+          exact h2 _ (List.mem_iff_getElem?.mpr ⟨idx, List.getElem?_set_self hidxlt⟩)
+
 end Flute.BencLoop
